@@ -227,6 +227,50 @@ theorem C18_constructors_valid (tzOK : Bytes → Bool) (h : tzOK (localName) = t
 example : Valid (fun _ => true) sundayMorning :=
   ⟨by decide, rfl, (Week.forall_get _ (fun r => validate r = .ok ())).mpr (by decide)⟩
 
+/-! ## Requests on a long-lived filter: no memory across instants or updates -/
+
+/-- Every request is decided by the schedule in force and the wall clock at its
+own instant: the list in force is applied exactly when its pause schedule is
+not in effect, the client's own list replacing the global one. -/
+theorem C18_request_meets_spec (offG offC : Int → Int) (s : ReqState) (clientSite : Bool) (now : Instant) :
+    specRequestOK offG offC s clientSite now (requestApplied offG offC s clientSite now) = true := by
+  have hc : ∀ (o : Int → Int) (w : Weekly), contains o w now = decide (InEffect o w now) := by
+    intro o w
+    by_cases h : InEffect o w now
+    · simp [h, (C18_contains_spec o w now).mpr h]
+    · have : contains o w now = false := by
+        rw [Bool.eq_false_iff, Ne, C18_contains_spec]; exact h
+      simp [h, this]
+  rcases s with ⟨g, c⟩
+  cases clientSite <;> cases c <;> simp [specRequestOK, requestApplied, hc]
+
+/-- After ANY history of updates, legacy `set` calls and client changes, the
+state is the last installed configuration — nothing else of the history is kept. -/
+theorem C18_state_is_last_update (ops : List ReqOp) (s : ReqState) :
+    ops.foldl ReqState.step s = ⟨lastGlobal ops s.global, lastClient ops s.client⟩ := by
+  induction ops generalizing s with
+  | nil => rfl
+  | cons op rest ih =>
+    rw [List.foldl_cons, ih]
+    cases op <;> rfl
+
+/-- For every operation history and every later instant: the request is decided
+by the configuration installed LAST and the wall clock NOW. -/
+theorem C18_request_after_history (offG offC : Int → Int) (ops : List ReqOp) (clientSite : Bool) (now : Instant) :
+    specRequestOK offG offC
+      ⟨lastGlobal ops ReqState.init.global, lastClient ops ReqState.init.client⟩ clientSite now
+      (requestApplied offG offC (ops.foldl ReqState.step ReqState.init) clientSite now) = true := by
+  rw [C18_state_is_last_update]
+  exact C18_request_meets_spec offG offC _ clientSite now
+
+-- non-vacuity: a request under a full-week pause, an update to the empty schedule, the same instant again
+example :
+    let full : SvcConf := ⟨⟨utcName, Week.const ⟨0, maxDayRange⟩⟩, 2⟩
+    let empty : SvcConf := ⟨⟨utcName, Week.const .zero⟩, 2⟩
+    requestApplied (fun _ => 0) (fun _ => 0) ([ReqOp.update full].foldl ReqState.step ReqState.init) false ⟨1730068200, 0⟩ = (0, 0) ∧
+    requestApplied (fun _ => 0) (fun _ => 0) ([ReqOp.update full, ReqOp.update empty].foldl ReqState.step ReqState.init) false ⟨1730068200, 0⟩ = (2, 0) := by
+  decide
+
 /-! ## The model satisfies the spec monitors, for all inputs -/
 
 theorem C18_model_meets_spec :
@@ -235,8 +279,11 @@ theorem C18_model_meets_spec :
     (∀ r : DayRange, specValidateOK r (accepted (validate r)) = true) ∧
     (∀ (yaml parseOK : Bool) (tzOK : Bytes → Bool) (c : Conf),
       (tzOK [] = true → tzOK (utcName) = true) →
-      specDecodeOK parseOK (tzOK c.tz) c (modelDecode yaml parseOK tzOK c) = true) := by
-  refine ⟨?_, ?_, ?_, ?_⟩
+      specDecodeOK parseOK (tzOK c.tz) c (modelDecode yaml parseOK tzOK c) = true) ∧
+    (∀ (offG offC : Int → Int) (ops : List ReqOp) (clientSite : Bool) (now : Instant),
+      specRequestOK offG offC (ops.foldl ReqState.step ReqState.init) clientSite now
+        (requestApplied offG offC (ops.foldl ReqState.step ReqState.init) clientSite now) = true) := by
+  refine ⟨?_, ?_, ?_, ?_, fun offG offC ops cs now => C18_request_meets_spec offG offC _ cs now⟩
   · intro off w t
     simp only [specContainsOK, beq_iff_eq]
     by_cases h : InEffect off w t
